@@ -570,10 +570,12 @@ def gen_model_facts(rng, sig, th):
         if len(labels[ty]) >= 2:
             a, b = rng.sample(labels[ty], 2)
             facts.append(["eq", ty, a, b])
-    if rng.random() < 0.3 and nobj >= 3 and morph:
+    if rng.random() < 0.45 and nobj >= 3 and morph:
         # a morphism with two codomains (or domains): single-valuedness identifies the two models
         # without producing any new row of the morphism diagram
-        o = rng.choice([x for x in morph if x[1] in (DOM, COD)])
+        cands = [x for x in morph if x[1] in (DOM, COD)]
+        cods0 = [x for x in cands if x[1] == COD and x[2] == labels[MOR][0]]
+        o = cods0[0] if cods0 and rng.random() < 0.6 else rng.choice(cands)
         other = rng.choice([l for l in labels[MODEL] if l != o[3]])
         morph.append(["ins", o[1], o[2], other])
     if rng.random() < 0.3 and nobj >= 3:
